@@ -167,7 +167,7 @@ def b_restart(tier, seed):
         return s, j1, j2
 
     for Solver, dt in ((Moreau, 2e-3), (Rattle, 5e-3)):
-        for k_split in ((20,) if tier == "quick" else (5, 20, 37)):
+        for k_split in ((5, 20) if tier == "quick" else (5, 20, 37)):
             cases += 1
             try:
                 with warnings.catch_warnings(), contextlib.redirect_stdout(io.StringIO()), contextlib.redirect_stderr(io.StringIO()):
@@ -199,7 +199,7 @@ def b_restart(tier, seed):
                 if not abs(ang_after - ang_before) <= 1e-8:
                     failures.append({"what": f"{Solver.__name__}: joint angle changes its meaning on re-initialisation", "input": {"k_split": k_split}, "detail": f"{ang_before} -> {ang_after}"})
             except Exception as e:  # noqa: BLE001
-                failures.append({"what": f"{Solver.__name__}: restart raised {type(e).__name__}", "input": {"k_split": k_split}, "detail": str(e)[:200]})
+                failures.append({"what": f"{Solver.__name__}: restart at split step {k_split} raised {type(e).__name__} ({str(e)[:60]})", "input": {"k_split": k_split}, "detail": str(e)[:200]})
     seen, out = set(), []
     for f in failures:
         if f["what"] not in seen:
